@@ -88,7 +88,7 @@ func runC08(c *Ctx) {
 			// the lease is decided as a min-fold whatever its shape (phi, helper
 			// lowering the NS deadline by the DS deadline, builtin min); the
 			// folded candidates are what the origin clauses below look at
-			terms := c.c08Fold("C08-R1", "C08-R1|processDelegation|lease is the minimum", "leaseDeadline", []c08Alt{{Val: lease, At: mc}}, c08FoldOpt{})
+			terms := c.c08Fold("C08-R1", "C08-R1|processDelegation|lease is the minimum", "leaseDeadline", []c08Alt{{Val: lease, At: mc}}, c08FoldOpt{Producers: true})
 			// X.Add(min(a, b)) is the pair of candidates X.Add(a), X.Add(b); minNonZero(a, b) the pair a, b
 			leaves := c08SplitMinTerms(c08TermExprs(terms), timeAdd, minNonZero)
 			kinds := map[string]bool{}
@@ -127,7 +127,34 @@ func runC08(c *Ctx) {
 				// the observation instant precedes validation
 				kObs := "C08-R1|processDelegation|observation instant precedes validation"
 				if nowCall, ok := inst.V.(ssa.Instruction); ok {
-					if afterValidation[nowCall] {
+					// a time.Now() that sits in a helper (the candidate's computation was
+					// extracted) executes where processDelegation calls into that helper
+					late, located := afterValidation[nowCall], true
+					if TopLevel(nowCall.Parent()) != pd {
+						late, located = false, false
+						for _, g := range WithAnons(pd) {
+							for _, b := range g.Blocks {
+								for _, in := range b.Instrs {
+									cc := callCommon(in)
+									h := localHelper(g, cc)
+									if h == nil {
+										continue
+									}
+									for _, hf := range scopeFuncs(h) {
+										if hf == nowCall.Parent() {
+											located = true
+											if afterValidation[in] {
+												late = true
+											}
+										}
+									}
+								}
+							}
+						}
+					}
+					if !located {
+						c.undecided("C08-R1", kObs, instrPos(mc), "the time.Now() feeding the lease sits in "+fnKey(nowCall.Parent())+", which processDelegation does not reach through an unexported same-package helper")
+					} else if late {
 						c.violation("C08-R1", kObs, instrPos(nowCall), "a time.Now() taken after validateDelegation feeds the lease deadline: validation latency is added back onto the parent-granted lease")
 					} else {
 						c.ok("C08-R1", kObs, instrPos(nowCall), "time.Now() feeding the lease cannot execute after validateDelegation")
@@ -429,22 +456,62 @@ func runC08(c *Ctx) {
 					c.undecided("C08-R4", key, instrPos(s.Instr), "cutUntil argument not found")
 					continue
 				}
-				ls := c08Leaves(v)
-				hasCut, bad := false, []string{}
-				for _, l := range ls {
-					ll := strip(l)
-					switch {
-					case isMetaCut(ll):
-						hasCut = true
-					case ll != nil && ll.K == EParam && ll.Name == "cutUntil" && s.Fn.Parent() == nil && strings.HasSuffix(fnPkg(s.Fn).Path(), "/middleware/cache") && methodOn(funcObjOf(s.Fn), "Store"):
-						// forwarding wrapper of package cache's Store: its own call sites are checked by this same loop
-						hasCut = true
-					case IsNilConst(ll) || (ll != nil && ll.K == EAlloc && len(ll.Args) == 0):
-						// zero time: "no meta sink on this path" — only acceptable next to a Cut() origin
-					default:
-						bad = append(bad, trunc(ll.String(), 140))
+				storeFwd := func(ll *Expr) bool {
+					if ll == nil || ll.K != EParam {
+						return false
 					}
+					if p, isP := ll.V.(*ssa.Parameter); isP && p.Parent() != s.Fn {
+						return false // a parameter met while following a helper's callers
+					}
+					return ll.Name == "cutUntil" && s.Fn.Parent() == nil && strings.HasSuffix(fnPkg(s.Fn).Path(), "/middleware/cache") && methodOn(funcObjOf(s.Fn), "Store")
 				}
+				ls := c08Leaves(v)
+				var shown []*Expr
+				var judge func(ls []*Expr, depth int) (bool, []string)
+				judge = func(ls []*Expr, depth int) (bool, []string) {
+					hasCut, bad := false, []string{}
+					for _, l := range ls {
+						ll := strip(l)
+						switch {
+						case isMetaCut(ll):
+							hasCut = true
+							shown = append(shown, l)
+						case storeFwd(ll):
+							// forwarding wrapper of package cache's Store: its own call sites are checked by this same loop
+							hasCut = true
+							shown = append(shown, l)
+						case IsNilConst(ll) || (ll != nil && ll.K == EAlloc && len(ll.Args) == 0):
+							// zero time: "no meta sink on this path" — only acceptable next to a Cut() origin
+							shown = append(shown, l)
+						default:
+							// a parameter of an unexported function that is only ever called (a piece
+							// split off from the function that read the bound) stands for what its
+							// callers pass: EVERY call site must hand it the request-tree bound
+							args := c.c08ParamCallerArgs(ll)
+							if len(args) == 0 || depth >= 3 {
+								bad = append(bad, trunc(ll.String(), 140))
+								continue
+							}
+							all := true
+							for _, a := range args {
+								h, b := judge(c08Leaves(a), depth+1)
+								if len(b) > 0 {
+									bad = append(bad, b...)
+									all = false
+								} else if !h {
+									bad = append(bad, "a caller of "+fnKey(ll.V.(*ssa.Parameter).Parent())+" always passes the zero time for "+ll.Name)
+									all = false
+								}
+							}
+							if all {
+								hasCut = true
+							}
+						}
+					}
+					return hasCut, bad
+				}
+				hasCut, bad := judge(ls, 0)
+				ls = shown
 				switch {
 				case len(bad) > 0:
 					c.violation("C08-R4", key, instrPos(s.Instr), fo.Name()+": cutUntil does not come from ResponseMeta.Cut(): "+strings.Join(bad, " ; "))
